@@ -31,6 +31,29 @@ impl<T> VecU8<T> {
     ensures r == old(self)@[index as int], final(self)@ == old(self)@.remove(index as int)
   { unimplemented!() }
   #[verifier::external_body]
+  pub fn new() -> (r: VecU8<T>) ensures r@ =~= Seq::<T>::empty() { unimplemented!() }
+  #[verifier::external_body]
+  pub fn is_empty(&self) -> (r: bool) ensures r == (self@.len() == 0) { unimplemented!() }
+  // <[T]>::swap through DerefMut: panics when an index is out of bounds
+  #[verifier::external_body]
+  pub fn swap(&mut self, a: usize, b: usize)
+    requires a < old(self)@.len(), b < old(self)@.len()
+    ensures final(self)@ == old(self)@.update(a as int, old(self)@[b as int]).update(b as int, old(self)@[a as int])
+  { unimplemented!() }
+  #[verifier::external_body]
+  pub fn swap_remove(&mut self, index: usize) -> (r: T)
+    requires index < old(self)@.len()
+    ensures r == old(self)@[index as int],
+      final(self)@ == (if index as int == old(self)@.len() - 1 { old(self)@.drop_last() } else { old(self)@.update(index as int, old(self)@.last()).drop_last() })
+  { unimplemented!() }
+  #[verifier::external_body]
+  pub fn truncate(&mut self, new_len: usize)
+    requires new_len <= 255
+    ensures final(self)@ == (if new_len as int >= old(self)@.len() { old(self)@ } else { old(self)@.subrange(0, new_len as int) })
+  { unimplemented!() }
+  #[verifier::external_body]
+  pub fn clear(&mut self) ensures final(self)@ =~= Seq::<T>::empty() { unimplemented!() }
+  #[verifier::external_body]
   pub fn pop(&mut self) -> (r: Option<T>)
     ensures
       old(self)@.len() == 0 ==> r is None && final(self)@ == old(self)@,
